@@ -53,6 +53,8 @@ func lowerBounded(n time.Time, tol time.Duration, p int) time.Time {
 		return b.Add(time.Millisecond)
 	case 2:
 		return b.Add(tol/2 + 10*time.Minute) // well inside (may be in the future: allowed)
+	case 4:
+		return time.Date(1600, 2, 29, 12, 0, 0, 0, time.UTC) // centuries outside (int64 nanosecond differences wrap around here)
 	default:
 		return b.Add(-2*tol - time.Hour)
 	}
@@ -68,6 +70,8 @@ func upperBounded(n time.Time, tol time.Duration, p int) time.Time {
 		return b.Add(-time.Millisecond)
 	case 2:
 		return b.Add(-tol/2 - 10*time.Minute)
+	case 4:
+		return time.Date(2500, 1, 1, 0, 0, 0, 0, time.UTC) // centuries outside
 	default:
 		return b.Add(2*tol + time.Hour)
 	}
@@ -164,11 +168,14 @@ func runC02(c *core.Ctx) {
 	// shapes with several confirmations / assertions, other entry points and lexical forms: seeded sample (thorough: full cross product on a thinner lattice)
 	nextra := c.Pick(24000, 500000)
 	for i := 0; i < nextra; i++ {
-		k := c02Case{tol: c02Tols[c.Rng.Intn(len(c02Tols))], shape: c.Rng.Intn(6), layout: c.Rng.Intn(2), form: c.Rng.Intn(c02Forms), entry: c.Rng.Intn(4), nowOff: time.Duration(c.Rng.Intn(1000)) * time.Microsecond}
+		k := c02Case{tol: c02Tols[c.Rng.Intn(len(c02Tols))], shape: c.Rng.Intn(7), layout: c.Rng.Intn(2), form: c.Rng.Intn(c02Forms), entry: c.Rng.Intn(4), nowOff: time.Duration(c.Rng.Intn(1000)) * time.Microsecond}
 		for j := range k.pos {
 			k.pos[j] = c.Rng.Intn(4)
 			if c.Rng.Intn(3) == 0 {
 				k.pos[j] = 1 + c.Rng.Intn(2) // bias towards satisfied so that single violations dominate
+			}
+			if c.Rng.Intn(25) == 0 {
+				k.pos[j] = 4
 			}
 		}
 		if k.entry >= 2 && c.Rng.Intn(2) == 0 {
@@ -295,6 +302,8 @@ func c02Run(c *core.Ctx, o *so.Oracle, sp *saml.ServiceProvider, s1 *fx.KeyPair,
 		as = []aspec{{"A", bad, []time.Time{bad[3]}, assertionOK}}
 	case 5:
 		as = []aspec{{"A", bad, nil, assertionOK}}
+	case 6: // a non-bearer confirmation without SubjectConfirmationData first, then the lattice confirmation
+		as = []aspec{{"A", bad, []time.Time{good[3], bad[3]}, assertionOK}}
 	case 1, 2: // two confirmations: the lattice confirmation instant goes to the first/second, the other is good
 		conf := []time.Time{bad[3], good[3]}
 		if k.shape == 2 {
@@ -326,6 +335,14 @@ func c02Run(c *core.Ctx, o *so.Oracle, sp *saml.ServiceProvider, s1 *fx.KeyPair,
 		setTimes(el, a.times[0], a.times[1], a.times[2], a.conf, k.form)
 		if len(k.methods) > 0 {
 			setConfMethods(el, k.methods)
+		}
+		if k.shape == 6 {
+			if scs := el.FindElements("./Subject/SubjectConfirmation"); len(scs) == 2 {
+				scs[0].CreateAttr("Method", confMethods[1+len(k.methods)%2])
+				if d := scs[0].FindElement("./SubjectConfirmationData"); d != nil {
+					scs[0].RemoveChild(d)
+				}
+			}
 		}
 		if k.layout == 1 {
 			var err error
@@ -406,7 +423,7 @@ func c02Run(c *core.Ctx, o *so.Oracle, sp *saml.ServiceProvider, s1 *fx.KeyPair,
 		c.Count("rejected_for_non_time_reason")
 		c.Observe("non_time_reject_reasons", truncate(priv, 80))
 	}
-	acceptRequired := respOK && allOK && arOK
+	acceptRequired := respOK && allOK && arOK && k.shape != 6 // whether a confirmation without data is acceptable at all is not C02's question
 	rejectRequired := !respOK || !anyOK || !arOK
 	switch {
 	case err == nil && rejectRequired:
